@@ -4,6 +4,7 @@
 -/
 import Koreo.ResourceFn
 namespace Koreo.Rf
+set_option linter.unusedSimpArgs false
 open Koreo JVal Koreo.Identity Koreo.Payload Koreo.ResourceFn
 
 theorem failedRun_left :
@@ -11,7 +12,7 @@ theorem failedRun_left :
 
 /-- the table, specialised to "preconditions passed", cell by cell -/
 theorem decide_pass (ro ow ns ce de : Bool) (pol : Policy) (co pg : Bool) (s : Situation) :
-    ResourceFn.decide ⟨ro, ow, ns, ce, de, pol, true, co, pg⟩ s =
+    decideCore ⟨ro, ow, ns, ce, de, pol, true, co, pg⟩ s =
       if de then (if s.isAbsent then (.none, .ok) else (.delete, .retry))
       else if s.isAbsent && (ro || !ce) then (.none, .retry)
       else if !s.isAbsent && ro then (.none, .ok)
@@ -23,9 +24,22 @@ theorem decide_pass (ro ow ns ce de : Bool) (pol : Policy) (co pg : Bool) (s : S
         | .patch => (.patch, .retry) := by
   cases ro <;> cases ow <;> cases ns <;> cases ce <;> cases de <;> cases pol <;> cases s <;> rfl
 
+theorem decide_of_not_rejected (c : Cfg) (s : Situation) (h : s.mutationRejected = false) :
+    ResourceFn.decide c s = decideCore c s := by
+  simp [ResourceFn.decide, h]
+
+theorem decide_absent (c : Cfg) : ResourceFn.decide c .absent = decideCore c .absent := by
+  simp [ResourceFn.decide, Situation.mutationRejected]
+theorem decide_presentMatching (c : Cfg) : ResourceFn.decide c .presentMatching = decideCore c .presentMatching := by
+  simp [ResourceFn.decide, Situation.mutationRejected]
+theorem decide_presentDrifted (c : Cfg) : ResourceFn.decide c .presentDrifted = decideCore c .presentDrifted := by
+  simp [ResourceFn.decide, Situation.mutationRejected]
+theorem decide_presentNoOwnerRef (c : Cfg) : ResourceFn.decide c .presentNoOwnerRef = decideCore c .presentNoOwnerRef := by
+  simp [ResourceFn.decide, Situation.mutationRejected]
+
 theorem reconcile_follows_table (enc : JVal → String) (defNs : String) (cmp : JVal → JVal → Bool)
     (pp : Bool) (rf : Rf) (owner : Owner) (stored : Option JVal)
-    (hns : (owner.ns == rf.ns) = rf.api.namespaced) :
+    (hns : (owner.ns == rf.ns) = rf.api.namespaced) (hw : (rf.api.namespaced && rf.ns.isNone) = false) :
     let run := reconcile enc defNs cmp pp rf owner stored
     (run.action = .none ∧ run.outcome = none ∧ run.request.isNone) ∨
     ∃ s, (run.action, run.outcome) = ((ResourceFn.decide (rf.cfg pp) s).1, some (ResourceFn.decide (rf.cfg pp) s).2) ∧
@@ -40,7 +54,10 @@ theorem reconcile_follows_table (enc : JVal → String) (defNs : String) (cmp : 
   | true =>
     obtain ⟨api, name, ns, ro, ow, ce, de, pol, tmpl, steps, cov⟩ := rf
     simp only at hns
-    have hrun : run = reconcileKrm enc defNs cmp ⟨api, name, ns, ro, ow, ce, de, pol, tmpl, steps, cov⟩ owner stored := rfl
+    simp only at hw
+    have hrun : run = reconcileKrm enc defNs cmp ⟨api, name, ns, ro, ow, ce, de, pol, tmpl, steps, cov⟩ owner stored := by
+      show reconcile enc defNs cmp true _ owner stored = _
+      simp [reconcile, hw]
     simp only [Rf.cfg]
     rw [hrun]
     unfold reconcileKrm
@@ -49,14 +66,14 @@ theorem reconcile_follows_table (enc : JVal → String) (defNs : String) (cmp : 
     | none =>
       simp only []
       cases de with
-      | true => right; exact ⟨.absent, by simp [decide_pass, Situation.isAbsent], by simp⟩
+      | true => right; exact ⟨.absent, by simp [decide_absent, decide_presentMatching, decide_presentDrifted, decide_presentNoOwnerRef, decide_pass, Situation.isAbsent], by simp⟩
       | false =>
         simp only [Bool.false_eq_true, if_false]
         cases hrc : (ro || !ce) with
         | true =>
           right
           refine ⟨.absent, ?_, by simp⟩
-          simp [decide_pass, Situation.isAbsent, hrc]
+          simp [decide_absent, decide_presentMatching, decide_presentDrifted, decide_presentNoOwnerRef, decide_pass, Situation.isAbsent, hrc]
         | false =>
           simp only [Bool.false_eq_true, if_false]
           generalize ((materialise _ tmpl steps).bind _) = q
@@ -67,7 +84,7 @@ theorem reconcile_follows_table (enc : JVal → String) (defNs : String) (cmp : 
             refine ⟨.absent, ?_, by simp⟩
             have : ro = false ∧ ce = true := by
               cases ro <;> cases ce <;> simp_all
-            simp [decide_pass, Situation.isAbsent, this.1, this.2]
+            simp [decide_absent, decide_presentMatching, decide_presentDrifted, decide_presentNoOwnerRef, decide_pass, Situation.isAbsent, this.1, this.2]
     | some live =>
       simp only []
       cases de with
@@ -76,11 +93,11 @@ theorem reconcile_follows_table (enc : JVal → String) (defNs : String) (cmp : 
         generalize deleteRequest api defNs live = q
         cases q with
         | none => left; exact failedRun_left
-        | some req => right; exact ⟨.presentMatching, by simp [decide_pass, Situation.isAbsent], by simp⟩
+        | some req => right; exact ⟨.presentMatching, by simp [decide_absent, decide_presentMatching, decide_presentDrifted, decide_presentNoOwnerRef, decide_pass, Situation.isAbsent], by simp⟩
       | false =>
         simp only [Bool.false_eq_true, if_false]
         cases ro with
-        | true => right; exact ⟨.presentMatching, by simp [decide_pass, Situation.isAbsent], by simp⟩
+        | true => right; exact ⟨.presentMatching, by simp [decide_absent, decide_presentMatching, decide_presentDrifted, decide_presentNoOwnerRef, decide_pass, Situation.isAbsent], by simp⟩
         | false =>
           simp only [Bool.false_eq_true, if_false]
           generalize materialise _ tmpl steps = m
@@ -92,40 +109,40 @@ theorem reconcile_follows_table (enc : JVal → String) (defNs : String) (cmp : 
             | false =>
               simp only [Bool.false_and, Bool.false_eq_true, if_false]
               cases pol with
-              | never => right; exact ⟨.presentDrifted, by simp [decide_pass, Situation.isAbsent, Situation.isDrifted], by simp⟩
+              | never => right; exact ⟨.presentDrifted, by simp [decide_absent, decide_presentMatching, decide_presentDrifted, decide_presentNoOwnerRef, decide_pass, Situation.isAbsent, Situation.isDrifted], by simp⟩
               | recreate =>
                 simp only []
                 generalize deleteRequest api defNs live = q
                 cases q with
                 | none => left; exact failedRun_left
                 | some req =>
-                  right; exact ⟨.presentDrifted, by simp [decide_pass, Situation.isAbsent, Situation.isDrifted], by simp⟩
+                  right; exact ⟨.presentDrifted, by simp [decide_absent, decide_presentMatching, decide_presentDrifted, decide_presentNoOwnerRef, decide_pass, Situation.isAbsent, Situation.isDrifted], by simp⟩
               | patch =>
                 simp only []
                 generalize ((patchPayload enc expected live owner.ref _ _).bind _) = q
                 cases q with
                 | none => left; exact failedRun_left
                 | some req =>
-                  right; exact ⟨.presentDrifted, by simp [decide_pass, Situation.isAbsent, Situation.isDrifted], by simp⟩
+                  right; exact ⟨.presentDrifted, by simp [decide_absent, decide_presentMatching, decide_presentDrifted, decide_presentNoOwnerRef, decide_pass, Situation.isAbsent, Situation.isDrifted], by simp⟩
             | true =>
               cases hown : (ow && api.namespaced) with
               | false =>
                 right
                 refine ⟨.presentMatching, ?_, by simp⟩
-                simp [decide_pass, Situation.isAbsent, Situation.isDrifted, hown]
+                simp [decide_absent, decide_presentMatching, decide_presentDrifted, decide_presentNoOwnerRef, decide_pass, Situation.isAbsent, Situation.isDrifted, hown]
               | true =>
                 simp only [if_true, Bool.true_and]
                 cases hr : ownerReffed live owner.ref with
                 | true =>
                   right
                   refine ⟨.presentMatching, ?_, by simp⟩
-                  simp [decide_pass, Situation.isAbsent, Situation.isDrifted, Situation.lacksOwnerRef, hown]
+                  simp [decide_absent, decide_presentMatching, decide_presentDrifted, decide_presentNoOwnerRef, decide_pass, Situation.isAbsent, Situation.isDrifted, Situation.lacksOwnerRef, hown]
                 | false =>
                   simp only [Bool.false_eq_true, if_false]
                   cases pol with
                   | never =>
                     right
-                    exact ⟨.presentNoOwnerRef, by simp [decide_pass, Situation.isAbsent, Situation.isDrifted, Situation.lacksOwnerRef, hown], by simp⟩
+                    exact ⟨.presentNoOwnerRef, by simp [decide_absent, decide_presentMatching, decide_presentDrifted, decide_presentNoOwnerRef, decide_pass, Situation.isAbsent, Situation.isDrifted, Situation.lacksOwnerRef, hown], by simp⟩
                   | recreate =>
                     simp only []
                     generalize deleteRequest api defNs live = q
@@ -133,7 +150,7 @@ theorem reconcile_follows_table (enc : JVal → String) (defNs : String) (cmp : 
                     | none => left; exact failedRun_left
                     | some req =>
                       right
-                      exact ⟨.presentNoOwnerRef, by simp [decide_pass, Situation.isAbsent, Situation.isDrifted, Situation.lacksOwnerRef, hown], by simp⟩
+                      exact ⟨.presentNoOwnerRef, by simp [decide_absent, decide_presentMatching, decide_presentDrifted, decide_presentNoOwnerRef, decide_pass, Situation.isAbsent, Situation.isDrifted, Situation.lacksOwnerRef, hown], by simp⟩
                   | patch =>
                     simp only []
                     generalize ((patchPayload enc expected live owner.ref _ _).bind _) = q
@@ -141,6 +158,6 @@ theorem reconcile_follows_table (enc : JVal → String) (defNs : String) (cmp : 
                     | none => left; exact failedRun_left
                     | some req =>
                       right
-                      exact ⟨.presentNoOwnerRef, by simp [decide_pass, Situation.isAbsent, Situation.isDrifted, Situation.lacksOwnerRef, hown], by simp⟩
+                      exact ⟨.presentNoOwnerRef, by simp [decide_absent, decide_presentMatching, decide_presentDrifted, decide_presentNoOwnerRef, decide_pass, Situation.isAbsent, Situation.isDrifted, Situation.lacksOwnerRef, hown], by simp⟩
 
 end Koreo.Rf
